@@ -583,15 +583,37 @@ func checkTTHDecode(c TTHFrameCase, cv *cov) *evid.Violation {
 		err     error
 		readLen int
 	}
-	for variant := 0; variant < 5; variant++ {
+	for variant := 0; variant < 6; variant++ {
 		var r res
 		r.readLen = -1
-		if variant == 4 && !rf.OK {
+		if variant >= 4 && !rf.OK {
 			break
 		}
 		name := ""
 		p, st := safeFault(func() {
 			switch variant {
+			case 5:
+				// decode the same bytes three times and scribble over the maps of the earlier results: every
+				// decode must hand out maps of its own
+				name = "third DecodeFromBytes of the same frame after the earlier results were modified"
+				for k := 0; k < 3; k++ {
+					r.dp, r.err = ttheader.DecodeFromBytes(ctx, in)
+					if r.err != nil || k == 2 {
+						break
+					}
+					for key := range r.dp.StrInfo {
+						r.dp.StrInfo[key] = "scribbled"
+					}
+					if r.dp.StrInfo != nil {
+						r.dp.StrInfo["verif-extra"] = "x"
+					}
+					for key := range r.dp.IntInfo {
+						delete(r.dp.IntInfo, key)
+					}
+					if r.dp.IntInfo != nil {
+						r.dp.IntInfo[0xabcd] = "x"
+					}
+				}
 			case 4:
 				// the decoded maps must be values of their own: overwrite the input afterwards
 				name = "DecodeFromBytes followed by overwriting the input"
@@ -737,7 +759,11 @@ func genTTHFrameCase(t *rapid.T) TTHFrameCase {
 		s := tthSection{id: rapid.SampledFrom([]byte{1, 1, 0x10, 0x10, 0x11}).Draw(t, "sid"), pad: rapid.SampledFrom([]int{0, 0, 0, 1, 3}).Draw(t, "pad")}
 		n := rapid.IntRange(0, 3).Draw(t, "n")
 		for j := 0; j < n; j++ {
-			s.strs = append(s.strs, ref.StrKV{K: short("k"), V: short("v")})
+			key := short("k")
+			if rapid.IntRange(0, 5).Draw(t, "aclKey") == 0 {
+				key = ref.ACLTokenKey // the ACL token's map key written as an ordinary entry: order decides
+			}
+			s.strs = append(s.strs, ref.StrKV{K: key, V: short("v")})
 			s.ints = append(s.ints, ref.IntKV{K: rapid.Uint16Range(0, 5).Draw(t, "ik"), V: short("iv")})
 		}
 		s.count = n
@@ -876,3 +902,69 @@ func TestC10_Exhaustive(t *testing.T) {
 }
 
 var _ = sort.Strings
+
+// TestC10_ManyKeys: frames with 1000 distinct 12-byte string keys each, decoded one after the other.
+func TestC10_ManyKeys(t *testing.T) {
+	rec := evid.New("C10", "c10_many_keys", "frames carrying 1000 distinct 12-byte (and 7-byte) string keys (counter-valued) with 1-byte values, decoded one after the other by DecodeFromBytes; every key and value compared with the frame; distinct by construction")
+	defer rec.Flush()
+	total := evid.Pick(20_000_000, 80_000_000)
+	shard, _ := evid.Shard()
+	const per = 1000
+	ctx := context.Background()
+	b := evid.NewBatch()
+	counter := shard * 7_000_003
+	keyOf := func(x, kl int) []byte {
+		k := make([]byte, kl)
+		copy(k, "key-")
+		for j := kl - 1; j >= 4; j-- {
+			k[j] = byte('0' + x%10)
+			x /= 10
+		}
+		return k
+	}
+	for done := 0; done < total; done += per {
+		kl := 12
+		if (done/per)%3 == 2 {
+			kl = 11
+		}
+		info := []byte{0, 0, 1}
+		info = ref.Put16(info, per)
+		base := counter
+		for i := 0; i < per; i++ {
+			info = ref.Put16(info, uint16(kl))
+			info = append(info, keyOf(counter, kl)...)
+			info = ref.Put16(info, 1)
+			info = append(info, byte('A'+counter%26))
+			counter++
+		}
+		for len(info)%4 != 0 {
+			info = append(info, 0)
+		}
+		frame := ref.Put32(nil, uint32(14+len(info)-4))
+		frame = append(frame, 0x10, 0, 0, 0)
+		frame = ref.Put32(frame, 1)
+		frame = ref.Put16(frame, uint16(len(info)/4))
+		frame = append(frame, info...)
+		dp, err := ttheader.DecodeFromBytes(ctx, frame)
+		bad := ""
+		if err != nil || len(dp.StrInfo) != per {
+			bad = fmt.Sprintf("err=%v, %d entries", err, len(dp.StrInfo))
+		} else {
+			for i := 0; i < per; i++ {
+				k := string(keyOf(base+i, kl))
+				if v, ok := dp.StrInfo[k]; !ok || v != string([]byte{byte('A' + (base+i)%26)}) {
+					bad = fmt.Sprintf("key %q (key #%d of the run) is missing or has value %q", k, base+i, v)
+					break
+				}
+			}
+		}
+		if bad != "" {
+			failEnum(t, rec, "c10_tth_decode", TTHFrameCase{Data: frame}, evid.Failf("DecodeFromBytes of a frame with %d distinct %d-byte keys: %s", per, kl, bad))
+			break
+		}
+		b.Evals += per
+	}
+	b.Distinct, b.Nontrivial = b.Evals, b.Evals
+	rec.Merge(b)
+	rec.Sample(map[string]interface{}{"keys": total, "per_frame": per, "key_length": 12})
+}
